@@ -21,7 +21,7 @@ variants of repetition elimination have their own step theorems).
 
 **Necessary hypothesis `st ∈ variableNames E`.** `variable_names` does not contain the start
 symbol. If the start symbol is neither defined nor used, a helper may take its name; the real
-pipeline accepts such a grammar (finding F19, `canon_start_clash_counterexample`). -/
+pipeline accepts such a grammar (finding F23, `canon_start_clash_counterexample`). -/
 namespace ParolModel
 
 /-! ## one theorem per step (`step_preserves_lang`) -/
@@ -87,7 +87,7 @@ theorem canon_preserves_lang {ty : GType} {fuel : Nat} {E : List EProd} {B : Lis
   (lang_toGrammar ν st B V hinj hV hstV w).trans (canon_preserves_langE h hst w)
 
 /-- **C09, `generate_name`**: the generated name is not in the exclusion list. -/
-theorem generate_name_not_mem {excl : List Name} {pref X : Name}
+theorem canon_generate_name_not_mem {excl : List Name} {pref X : Name}
     (h : generateName excl pref = some X) : X ∉ excl := generateName_not_mem h
 
 /-- **C09, `generate_name` always finds a name**: the model's search budget of
@@ -111,7 +111,7 @@ theorem canon_keeps_names {ty : GType} {fuel : Nat} {E : List EProd} {B : List R
     (h : canon ty fuel E = .ok B) :
     ∀ x ∈ variableNames E, x ∈ variableNames (B.map RuleN.toEProd) := (canon_ok h).names
 
-/-! ## the excluded point: the start symbol is not a "used name" for `variable_names` (F19) -/
+/-! ## the excluded point: the start symbol is not a "used name" for `variable_names` (F23) -/
 
 /-- `%start NList %% N: { "t5" N "t6" };` — the start symbol is neither defined nor used. -/
 def startClashE : List EProd :=
